@@ -38,7 +38,7 @@ func checkIDs() []string {
 // genScenario is phase one of a run: everything random happens here.
 func genScenario(c Check, batchSeed uint64, idx int, tier string) *Scenario {
 	seed := runSeed(batchSeed, c.ID(), idx)
-	sc := &Scenario{Property: c.ID(), Seed: seed, Index: idx, Cfg: map[string]int{}}
+	sc := &Scenario{Property: c.ID(), Seed: seed, Batch: batchSeed, Index: idx, Cfg: map[string]int{}}
 	c.Gen(NewRand(seed), sc, tier)
 	return sc
 }
